@@ -18,6 +18,7 @@ package main
 //      receives its own reply
 
 import (
+	"encoding/json"
 	"errors"
 	"fmt"
 	"strings"
@@ -931,6 +932,296 @@ func gatedReplyRacingTimeout() []int64 {
 	return []int64{0, int64(concluded["91"]), int64(concluded["92"]), int64(concluded["93"])}
 }
 
+// scenario 23 (C08, C01; finding F8): the reply to a request arrives at the moment its timeout expires, while the pump is
+// busy: both the timeout token and the ready token wait for the pump.  The NEXT request must get its own full timeout.
+func gatedStaleTimeoutToken() []int64 {
+	installIDGen()
+	early := int64(0)
+	for try := 0; try < 8; try++ {
+		fake := fakews.NewServer()
+		disp := ocppj.NewDefaultServerDispatcher(ocppj.NewFIFOQueueMap(0))
+		disp.SetTimeout(120 * time.Millisecond)
+		srv := ocppj.NewServer(fake, disp, nil, core16.Profile)
+		var mu sync.Mutex
+		cancelledAt := map[string]time.Time{}
+		answered := map[string]bool{}
+		srv.SetResponseHandler(func(c ws_Channel, r ocpp.Response, id string) { mu.Lock(); answered[id] = true; mu.Unlock() })
+		srv.SetErrorHandler(func(c ws_Channel, e *ocpp.Error, d interface{}) {})
+		srv.SetRequestHandler(func(c ws_Channel, r ocpp.Request, id, action string) {})
+		srv.SetCanceledRequestHandler(func(clientID string, requestID string, r ocpp.Request, e *ocpp.Error) {
+			mu.Lock()
+			cancelledAt[requestID] = time.Now()
+			mu.Unlock()
+		})
+		gate := make(chan struct{})
+		var writtenAt sync.Map
+		fake.OnWrite = func(to string, data []byte) {
+			writtenAt.Store(callID(data), time.Now())
+			if to == "B" {
+				<-gate
+			}
+		}
+		go srv.Start(0, "/{ws}")
+		if !waitFor(2*time.Second, disp.IsRunning) {
+			return []int64{-2}
+		}
+		fake.Connect("A")
+		fake.Connect("B")
+		base := int64(100 + try*10)
+		setNextID(fmt.Sprint(base + 1))
+		_ = srv.SendRequest("A", core16.NewDataTransferRequest("a1"))
+		setNextID(fmt.Sprint(base + 2))
+		_ = srv.SendRequest("A", core16.NewDataTransferRequest("a2"))
+		if !waitFor(2*time.Second, func() bool { _, ok := writtenAt.Load(base + 1); return ok }) {
+			close(gate)
+			return []int64{-8}
+		}
+		time.Sleep(50 * time.Millisecond)
+		setNextID(fmt.Sprint(base + 3))
+		_ = srv.SendRequest("B", core16.NewDataTransferRequest("b1"))                       // the pump is now held inside the write to B
+		time.Sleep(100 * time.Millisecond)                                                  // a1's deadline has passed: its timeout token is waiting
+		_ = fake.Inject("A", []byte(fmt.Sprintf(`[3,"%d",{"status":"Accepted"}]`, base+1))) // and its reply arrives just now
+		time.Sleep(5 * time.Millisecond)
+		close(gate)
+		if !waitFor(2*time.Second, func() bool { _, ok := writtenAt.Load(base + 2); return ok }) {
+			within(2*time.Second, srv.Stop)
+			return []int64{0, -1}
+		}
+		time.Sleep(60 * time.Millisecond) // half of a2's timeout
+		mu.Lock()
+		_, cancelledEarly := cancelledAt[fmt.Sprint(base+2)]
+		mu.Unlock()
+		_ = fake.Inject("A", []byte(fmt.Sprintf(`[3,"%d",{"status":"Accepted"}]`, base+2)))
+		time.Sleep(20 * time.Millisecond)
+		mu.Lock()
+		ok2 := answered[fmt.Sprint(base+2)]
+		mu.Unlock()
+		within(2*time.Second, srv.Stop)
+		if cancelledEarly || !ok2 {
+			early++
+		}
+	}
+	if early == 0 {
+		return []int64{1, 0}
+	}
+	return []int64{0, early}
+}
+
+// scenario 24 (C11, C07; finding F13): a client disconnects with a request outstanding and the same id reconnects before
+// the pump has handled the disconnection (it is busy writing to another client).  A request sent to the new session must
+// be written promptly -- nothing of the old session, not even its timeout context, may hold it back.
+func gatedReconnectBeforePumpNotices() []int64 {
+	installIDGen()
+	fake := fakews.NewServer()
+	disp := ocppj.NewDefaultServerDispatcher(ocppj.NewFIFOQueueMap(0))
+	disp.SetTimeout(3 * time.Second)
+	srv := ocppj.NewServer(fake, disp, nil, core16.Profile)
+	srv.SetResponseHandler(func(c ws_Channel, r ocpp.Response, id string) {})
+	srv.SetErrorHandler(func(c ws_Channel, e *ocpp.Error, d interface{}) {})
+	srv.SetRequestHandler(func(c ws_Channel, r ocpp.Request, id, action string) {})
+	srv.SetCanceledRequestHandler(func(clientID string, requestID string, r ocpp.Request, e *ocpp.Error) {})
+	gate := make(chan struct{})
+	fake.OnWrite = func(to string, data []byte) {
+		if to == "B" {
+			<-gate
+		}
+	}
+	go srv.Start(0, "/{ws}")
+	if !waitFor(2*time.Second, disp.IsRunning) {
+		return []int64{-2}
+	}
+	fake.Connect("A")
+	fake.Connect("B")
+	wrote := func(to string, id int64) func() bool {
+		return func() bool {
+			return fake.CountWritten(func(t string, d []byte) bool { return t == to && callID(d) == id }) > 0
+		}
+	}
+	setNextID("201")
+	_ = srv.SendRequest("A", core16.NewDataTransferRequest("a1"))
+	if !waitFor(2*time.Second, wrote("A", 201)) {
+		close(gate)
+		return []int64{-8}
+	}
+	setNextID("202")
+	_ = srv.SendRequest("B", core16.NewDataTransferRequest("b1")) // the pump is now held inside the write to B
+	time.Sleep(20 * time.Millisecond)
+	fake.Disconnect("A") // a1 outstanding
+	fake.Connect("A")    // the same id is back at once
+	setNextID("203")
+	if err := srv.SendRequest("A", core16.NewDataTransferRequest("a2")); err != nil {
+		close(gate)
+		return []int64{0, -1}
+	}
+	close(gate)
+	ok := waitFor(1500*time.Millisecond, wrote("A", 203)) // well before a1's old deadline (3 s)
+	within(3*time.Second, srv.Stop)
+	if ok {
+		return []int64{1, 0}
+	}
+	return []int64{0, 0}
+}
+
+// scenario 25 (C03, C06): an invalid-message hook is installed and substitutes its own error (which carries no message id,
+// or another one).  A rejected CALL must still get exactly one CALL_ERROR carrying the CALL's own id -- on both roles.
+func gatedInvalidMessageHook() []int64 {
+	installIDGen()
+	bad := int64(0)
+	calls := []struct{ id, frame string }{
+		{"h1", `[2,"h1","NoSuchAction",{}]`},
+		{"h2", `[2,"h2","DataTransfer",{"vendorId":""}]`},
+		{"h3", `[2,"h3","DataTransfer",{"vendorId":5}]`},
+	}
+	frameID := func(d []byte) (int, string) {
+		var arr []json.RawMessage
+		if json.Unmarshal(d, &arr) != nil || len(arr) < 2 {
+			return 0, ""
+		}
+		var t int
+		var id string
+		_ = json.Unmarshal(arr[0], &t)
+		_ = json.Unmarshal(arr[1], &id)
+		return t, id
+	}
+	for variant := 0; variant < 3; variant++ { // hook error: 0 without id, 1 with a foreign id, 2 hook returns nil
+		mkErr := func(orig *ocpp.Error) *ocpp.Error {
+			switch variant {
+			case 0:
+				return ocpp.NewHandlerError(ocppj.GenericError, "rewritten by the application")
+			case 1:
+				return ocpp.NewError(ocppj.GenericError, "rewritten by the application", "some-other-id")
+			}
+			return nil
+		}
+		// server role
+		fs := fakews.NewServer()
+		sd := ocppj.NewDefaultServerDispatcher(ocppj.NewFIFOQueueMap(0))
+		srv := ocppj.NewServer(fs, sd, nil, core16.Profile)
+		srv.SetDialect(ocpp.V16)
+		srv.SetRequestHandler(func(c ws_Channel, r ocpp.Request, id, action string) {})
+		srv.SetResponseHandler(func(c ws_Channel, r ocpp.Response, id string) {})
+		srv.SetErrorHandler(func(c ws_Channel, e *ocpp.Error, d interface{}) {})
+		srv.SetInvalidMessageHook(func(c ws_Channel, e *ocpp.Error, raw string, parsed []interface{}) *ocpp.Error { return mkErr(e) })
+		go srv.Start(0, "/{ws}")
+		if !waitFor(2*time.Second, sd.IsRunning) {
+			return []int64{-2}
+		}
+		fs.Connect("c1")
+		for _, c := range calls {
+			_ = fs.Inject("c1", []byte(c.frame))
+		}
+		time.Sleep(30 * time.Millisecond)
+		for _, c := range calls {
+			n := fs.CountWritten(func(to string, d []byte) bool { t, id := frameID(d); return to == "c1" && t == 4 && id == c.id })
+			if n != 1 {
+				bad++
+			}
+		}
+		if fs.CountWritten(func(to string, d []byte) bool { return true }) != len(calls) {
+			bad++
+		}
+		within(2*time.Second, srv.Stop)
+		// client role
+		fc := fakews.NewClient()
+		cd := ocppj.NewDefaultClientDispatcher(ocppj.NewFIFOClientQueue(0))
+		cl := ocppj.NewClient("cp1", fc, cd, nil, core16.Profile)
+		cl.SetDialect(ocpp.V16)
+		cl.SetRequestHandler(func(r ocpp.Request, id, action string) {})
+		cl.SetResponseHandler(func(r ocpp.Response, id string) {})
+		cl.SetErrorHandler(func(e *ocpp.Error, d interface{}) {})
+		cl.SetInvalidMessageHook(func(e *ocpp.Error, raw string, parsed []interface{}) *ocpp.Error { return mkErr(e) })
+		if err := cl.Start("ws://fake"); err != nil {
+			return []int64{-3}
+		}
+		for _, c := range calls {
+			_ = fc.Inject([]byte(c.frame))
+		}
+		time.Sleep(30 * time.Millisecond)
+		for _, c := range calls {
+			n := fc.CountWritten(func(d []byte) bool { t, id := frameID(d); return t == 4 && id == c.id })
+			if n != 1 {
+				bad++
+			}
+		}
+		if fc.CountWritten(func(d []byte) bool { return true }) != len(calls) {
+			bad++
+		}
+		within(2*time.Second, cl.Stop)
+	}
+	if bad == 0 {
+		return []int64{1, 0}
+	}
+	return []int64{0, bad}
+}
+
+// scenario 26 (C02, C08; finding F19): a request to client A times out and the application's cancel handler at once sends
+// the next request to the same client.  That request is written once and keeps its own timeout.
+func gatedTimeoutThenSendToSame() []int64 {
+	bad := int64(0)
+	for try := 0; try < 6; try++ { // which of the two tokens the pump takes first is a coin flip
+		r := gatedTimeoutThenSendToSameOnce()
+		if len(r) == 0 || r[0] < 0 {
+			return r
+		}
+		if r[0] != 1 {
+			bad++
+		}
+	}
+	if bad == 0 {
+		return []int64{1, 0}
+	}
+	return []int64{0, bad}
+}
+
+func gatedTimeoutThenSendToSameOnce() []int64 {
+	installIDGen()
+	fake := fakews.NewServer()
+	disp := ocppj.NewDefaultServerDispatcher(ocppj.NewFIFOQueueMap(0))
+	disp.SetTimeout(150 * time.Millisecond)
+	srv := ocppj.NewServer(fake, disp, nil, core16.Profile)
+	srv.SetResponseHandler(func(c ws_Channel, r ocpp.Response, id string) {})
+	srv.SetErrorHandler(func(c ws_Channel, e *ocpp.Error, d interface{}) {})
+	srv.SetRequestHandler(func(c ws_Channel, r ocpp.Request, id, action string) {})
+	var mu sync.Mutex
+	cancelled := []string{}
+	srv.SetCanceledRequestHandler(func(clientID string, requestID string, r ocpp.Request, e *ocpp.Error) {
+		mu.Lock()
+		cancelled = append(cancelled, requestID)
+		first := len(cancelled) == 1
+		mu.Unlock()
+		if first {
+			setNextID("302")
+			_ = srv.SendRequest("A", core16.NewDataTransferRequest("a2"))
+		}
+	})
+	go srv.Start(0, "/{ws}")
+	if !waitFor(2*time.Second, disp.IsRunning) {
+		return []int64{-2}
+	}
+	fake.Connect("A")
+	setNextID("301")
+	_ = srv.SendRequest("A", core16.NewDataTransferRequest("a1"))
+	count := func(id int64) int {
+		return fake.CountWritten(func(t string, d []byte) bool { return t == "A" && callID(d) == id })
+	}
+	if !waitFor(2*time.Second, func() bool { return count(302) >= 1 }) { // a1 times out after 150 ms, a2 follows
+		within(2*time.Second, srv.Stop)
+		return []int64{0, 0}
+	}
+	time.Sleep(60 * time.Millisecond)
+	n2 := count(302)
+	// a2 is never answered: it must time out on its own, once
+	ok := waitFor(time.Second, func() bool { mu.Lock(); defer mu.Unlock(); return len(cancelled) >= 2 })
+	time.Sleep(50 * time.Millisecond)
+	within(2*time.Second, srv.Stop)
+	mu.Lock()
+	defer mu.Unlock()
+	if n2 == 1 && ok && len(cancelled) == 2 && cancelled[0] == "301" && cancelled[1] == "302" {
+		return []int64{1, 0}
+	}
+	return []int64{0, int64(n2), int64(len(cancelled))}
+}
+
 func gatedEval(in []int64) []int64 {
 	switch in[0] {
 	case 7:
@@ -959,6 +1250,14 @@ func gatedEval(in []int64) []int64 {
 		return gatedReconnectRacingSend()
 	case 22:
 		return gatedReplyRacingTimeout()
+	case 23:
+		return gatedStaleTimeoutToken()
+	case 24:
+		return gatedReconnectBeforePumpNotices()
+	case 25:
+		return gatedInvalidMessageHook()
+	case 26:
+		return gatedTimeoutThenSendToSame()
 	}
 	return []int64{-1}
 }
